@@ -1,6 +1,6 @@
 (* C17 property theorems ONLY (each closed by an already proved lemma) + assumptions. *)
 From Coq Require Import NArith List String Bool.
-From RV Require Import C05.Types C05.Model C05.Table C05.Roundtrip C05.Whole C05.Run C05.WholeGen C17.Model C17.Proofs C17.Complete Gen.Descriptors.
+From RV Require Import C05.Types C05.Model C05.Table C05.Roundtrip C05.Whole C05.Run C05.WholeGen C17.Model C17.Proofs C17.Complete C17.Relink Gen.Descriptors.
 Import ListNotations.
 Open Scope N_scope.
 
@@ -97,6 +97,25 @@ Theorem C17_diff_sound_per_field : forall fs1 fs2, NoDup (map f_type fs2) -> are
                  is_wall table walltime_prefix (f_type f1) = false).
 Proof. exact gen_diff_sound_per_field. Qed.
 Print Assumptions C17_diff_sound_per_field.
+
+(* 8. Independence of a copy / restored simulation at the level of ADDRESS-VALUED members: the reader's final fix-up
+   loops, modelled as loops over the records.  For every record index l < n (n = N_var_config resp. N, unbounded) and
+   every byte offset i of the record: after the loop the byte is the re-linked value where the loop body assigns a
+   member, and the original byte elsewhere - in particular no record keeps the source's address. *)
+Theorem C17_relink_loop_all_records : forall g rsz n p l i,
+  (n * rsz <= List.length p)%nat -> (l < n)%nat -> (i < rsz)%nat ->
+  nth (l * rsz + i) (relink_loop n rsz g p) 0%N = match g i with Some x => x | None => nth (l * rsz + i) p 0%N end.
+Proof. exact relink_loop_spec. Qed.
+Print Assumptions C17_relink_loop_all_records.
+
+(* ... and the loops regenerated from input.c are complete: each runs over the array's own count member and assigns
+   EVERY address-valued member of the record type (from the struct layouts: particles: c, ap, sim; var_config: sim),
+   for both record arrays whose address-valued members are dereferenced. *)
+Theorem C17_relinks_complete :
+  forallb relink_ok reader_relinks &&
+  forallb (fun nm => existsb (fun r => String.eqb (fst (fst r)) nm) reader_relinks) ["particles"%string; "var_config"%string] = true.
+Proof. exact gen_relinks_complete. Qed.
+Print Assumptions C17_relinks_complete.
 
 (* Non-vacuity of the hypotheses of 1, 2, 4: two one-particle streams differing in x. *)
 Example C17_hypotheses_inhabited :
